@@ -106,6 +106,21 @@ int outlive(int kind) {
   return kind;
 }
 void drop() { fs = 0; gkeep = 0; }
+// function pointers that outlive the object (and program) that made them: kind = 4 * transfer + function kind
+// transfer: 0 stored in B as is, 1 bind(f, B) then stored in B, 2 argument of a pending call_out of B, 3 add_action carry-over arg of B
+object fpb; int fpkind;
+mixed fpout(int kind) {
+  object a = load_object("/c06/fa"); function f; mixed e;
+  fpb = new("/c06/fb"); fpkind = kind;
+  f = a->mk(kind % 4);
+  if (kind / 4 == 1) e = catch(f = bind(f, fpb));
+  switch (kind / 4) { case 0: case 1: fpb->hold(f); break; case 2: fpb->hold_co(f); break; default: fpb->hold_act(f); }
+  f = 0;
+  a->dest();
+  return ({ kind, e });
+}
+// called by the harness after remove_destructed_objects() and a call_out sweep
+mixed fpout2(int kind) { mixed r = fpb->fire(fpkind / 4); fpb->dest(); fpb = 0; return r; }
 // zombie family: an object destructs itself and keeps calling efuns that capture arguments / register state
 int relay_z(mixed a, mixed b, mixed c, mixed d) { return sizeof(a); }
 mixed zombie(int kind) {
